@@ -1093,3 +1093,36 @@ def presence_not_truthiness_rule(chk: Check, rule: str, fns: list[FuncInfo], is_
                 chk.ok(rule, fn, construct, "", fn.loc(a))
     if n < floor:
         chk.undecided(rule, "<discovery>", f"sites={n}", "fewer value lookups than confirmed by hand")
+
+
+# ------------------------------------------------------------------------------------------------- failure <-> request
+def failure_request_ids_rule(chk: Check, rule: str) -> None:
+    """find_failure_data pairs a failure with the case AND the recorded exchange it is reported with; both lookups must
+    use the same id (the failure's own case id first) - otherwise a failure found on a derived request (a check that
+    re-sends the request: ignored_auth) is reported with the parent's request."""
+    import re as _re
+
+    chk.rule(rule, "SAME-KEY(failure -> case, recorded exchange): ScenarioRecorder.find_failure_data looks the failing case up in `self.cases` and its request / response in `self.interactions` under ONE id expression (`failure.case_id or parent_id`); mixed ids report a failure of a derived request with the headers / TLS flag of the request it was derived from", floor=2)
+    P = chk.project
+    ffd = P.func("engine/recorder.py:ScenarioRecorder.find_failure_data")
+    fdc = [r for r in simple_return_expr(ffd) if isinstance(r, ast.Call) and last_attr(r) == "FailureData"]
+    if not fdc:
+        chk.undecided(rule, ffd, "FailureData(case=..., headers=..., verify=...)", "return shape not recognised", ffd.loc())
+        return
+
+    def ids(expr: ast.AST | None, table: str) -> set[str]:
+        out: set[str] = set()
+        for x_ in canon(ffd, expr, depth=5):
+            out |= set(_re.findall(r"self\." + table + r"\[([^\]]+)\]", x_))
+        return out
+
+    case_ids = ids(kwarg(fdc[0], "case"), "cases")
+    for field, why in (("headers", "the report shows the failing request with the PARENT's headers (valid credentials the derived request did not carry)"), ("verify", "the TLS verification flag of another exchange")):
+        other = ids(kwarg(fdc[0], field), "interactions")
+        construct = f"FailureData.{field} comes from the exchange of the failing case"
+        if not case_ids or not other:
+            chk.undecided(rule, ffd, construct, "lookup not recognised", ffd.loc(fdc[0]))
+        elif case_ids & other:
+            chk.ok(rule, ffd, construct, sorted(case_ids & other)[0], ffd.loc(fdc[0]))
+        else:
+            chk.violation(rule, ffd, construct, f"the case is looked up under `{sorted(case_ids)[0]}` but the recorded exchange under `{sorted(other)[0]}`: {why}", ffd.loc(fdc[0]))
